@@ -11,7 +11,7 @@ verus! {
 pub struct VErr;
 #[verifier::external_body] pub struct NumV { x: usize }              // Number (a numeric literal)
 #[verifier::external_body] pub struct OtherV { x: usize }
-pub enum ExprV { Value(Value), Other(OtherV) }                         // a sub-expression: a literal value or anything else
+pub enum ExprV { Value(Value), Nil, Other(OtherV) }                         // a sub-expression: a literal value or anything else
 #[verifier::external_body] pub struct TypeV { x: usize }
 pub enum Value { Number(NumV), Boolean(bool), Other(OtherV) }
 pub enum ConstexprEvaluation { Owned(Value), Impossible }
@@ -37,7 +37,9 @@ pub uninterp spec fn negated(v: Value) -> Result<Option<Value>, VErr>;
 // Value::try_constexpr_eval (folding of a value that is already a literal): abstract -- NOT known to be the identity (an integer literal
 // that does not fit its kind is re-labelled by it)
 pub uninterp spec fn refolded(v: Value) -> Result<ConstexprEvaluation, VErr>;
+pub uninterp spec fn value_is_nil(v: Value) -> bool;
 impl Value {
+    #[verifier::external_body] pub fn is_nil(&self) -> (r: bool) ensures r == value_is_nil(*self) { unimplemented!() }
     #[verifier::external_body] pub fn try_constexpr_eval(&self) -> (r: Result<ConstexprEvaluation, VErr>) ensures r == refolded(*self) { unimplemented!() }
     #[verifier::external_body] pub fn verif_for_type(&self) -> (r: Result<TypeV, VErr>) ensures r == value_type(*self) { unimplemented!() }
     #[verifier::external_body] pub fn try_negate(&self) -> (r: Result<Option<Value>, VErr>) ensures r == negated(*self) { unimplemented!() }
@@ -56,6 +58,8 @@ def build(repo):
     try:
         am = extract_match_arm(f["body"], "Self :: UnaryMinus ( expr )")
         ab = extract_match_arm(f["body"], "Self :: BinOp { lhs , op , rhs }")
+        ag = extract_match_arm(f["body"], "Self :: UnaryUnwrap { value , .. }")
+        ao = extract_match_arm(f["body"], "Self :: NilEval { primary , fallback }")
     except Exception as e:
         raise Undecided(f"try_constexpr_eval: arm not found: {e}")
     bm = translate(am["body"], [
@@ -69,7 +73,37 @@ def build(repo):
               [Rule("R9", f"rhs {sym} lhs", f"num_op ( {code}u8 , rhs , lhs )", why=f"`{sym}` on two literals: impl of string_arithmetic (C06.* obligations)") for sym, code in OPS]
     bb = translate(ab["body"], rules_b, log, "try_constexpr_eval[BinOp]")
     check_closed(bb, "try_constexpr_eval[BinOp]")
-    gen = header(log, f"{MATH}: Expr::try_constexpr_eval, arms UnaryMinus and BinOp") + SPEC + f"""
+    R3 = Rule("R3", "bail ! $a", "return Err ( VErr )", why="bail! -> return Err")
+    RX = [R3, Rule("R1", "Self :: Nil", "ExprV :: Nil", why="Self -> the expression type of the model"), Rule("R1", "Self :: Value", "ExprV :: Value", why="Self -> the expression type of the model"),
+          Rule("R1", "value . as_ref ( )", "value", why="Box<Expr> deref"), Rule("R1", "primary . as_ref ( )", "primary", why="Box<Expr> deref"), Rule("R1", "fallback . as_ref ( )", "fallback", why="Box<Expr> deref")]
+    bg = translate(ag["body"], RX, log, "try_constexpr_eval[UnaryUnwrap]")
+    check_closed(bg, "try_constexpr_eval[UnaryUnwrap]")
+    bo = translate(ao["body"], RX, log, "try_constexpr_eval[NilEval]")
+    check_closed(bo, "try_constexpr_eval[NilEval]")
+    gen = header(log, f"{MATH}: Expr::try_constexpr_eval, arms UnaryMinus, BinOp, UnaryUnwrap, NilEval") + SPEC + f"""
+//@ OBL C12.walk.get
+// `get e` with a constant operand: what e FOLDS to decides -- nil (however it is spelled) is the failure `get` has at run time, reported by
+// the compiler; a present constant is that constant.  The `get` never disappears around a nil.
+pub fn fold_get(value: &ExprV) -> (r: Result<ConstexprEvaluation, VErr>)
+    ensures
+        folded(value) is Err ==> r is Err,
+        folded(value) matches Ok(ConstexprEvaluation::Impossible) ==> r == Ok::<ConstexprEvaluation, VErr>(ConstexprEvaluation::Impossible),
+        folded(value) matches Ok(ConstexprEvaluation::Owned(v)) ==> (if value_is_nil(v) {{ r is Err }} else {{ r == Ok::<ConstexprEvaluation, VErr>(ConstexprEvaluation::Owned(v)) }}),
+{{
+{render(bg, 1)}
+}}
+
+//@ OBL C12.walk.or
+// `(p) or f` with a constant left side: the present constant itself, or -- when it folds to nil -- whatever f folds to (f is not dropped)
+pub fn fold_or(primary: &ExprV, fallback: &ExprV) -> (r: Result<ConstexprEvaluation, VErr>)
+    ensures
+        folded(primary) is Err ==> r is Err,
+        folded(primary) matches Ok(ConstexprEvaluation::Impossible) ==> r == Ok::<ConstexprEvaluation, VErr>(ConstexprEvaluation::Impossible),
+        folded(primary) matches Ok(ConstexprEvaluation::Owned(v)) ==> (if value_is_nil(v) {{ r == folded(fallback) }} else {{ r == Ok::<ConstexprEvaluation, VErr>(ConstexprEvaluation::Owned(v)) }}),
+{{
+{render(bo, 1)}
+}}
+
 //@ OBL C06.walk.unary-minus
 // `-e` folds to the negation of what e FOLDS to (not of e's source text: an unsuffixed literal beyond i32 folds to a bigint first)
 pub fn fold_unary_minus(expr: &ExprV) -> (r: Result<ConstexprEvaluation, VErr>)
@@ -109,9 +143,11 @@ fn main() {{}}
 """
     obls = [Obl("C06.walk.unary-minus", ["C06"], fn="Expr::try_constexpr_eval[UnaryMinus]", desc="folding `-e`: the negation of the folded operand (Impossible / error propagate)"),
             Obl("C06.walk.binop", ["C06", "C15"], fn="Expr::try_constexpr_eval[BinOp]", desc="folding `a op b`: both operands folded to numbers, the source operator mapped to its own arithmetic, operands in order; anything else is not folded")]
+    obls += [Obl("C12.walk.get", ["C12", "C06"], fn="Expr::try_constexpr_eval[UnaryUnwrap]", desc="folding `get e`: a constant operand that folds to nil is rejected (the failure `get` has at run time), a present constant is that constant"),
+             Obl("C12.walk.or", ["C12", "C06", "C15"], fn="Expr::try_constexpr_eval[NilEval]", desc="folding `(p) or f`: the present constant, or the folded fallback when p folds to nil")]
     return gen, obls, log
 
 
-UNITS = [VUnit("c06_walk", ["C06", "C15"], "the folding walk: unary minus and binary operators over folded operands", build)]
+UNITS = [VUnit("c06_walk", ["C06", "C15", "C12"], "the folding walk: unary minus and binary operators over folded operands", build)]
 UNITS[0].assumes = ["fragments: the two arms of Expr::try_constexpr_eval; the recursive fold of sub-expressions, Value::for_type / try_negate (C06.negate) and the literal arithmetic (C06.<op>.*) are abstract callees",
-                    "UnaryNot, UnaryUnwrap, NilEval arms and Value / List folding are not covered"]
+                    "UnaryNot arm and Value / List folding are not covered"]
